@@ -235,3 +235,51 @@ package http3
 //@   ensures [status-required] implies(result == nil, h.Status != "" && rsp.ContentLength == h.ContentLength && rsp.ProtoMajor == 3)
 //@   ensures [parse-error-propagates] implies(lastresult("parseHeaders", 1) != nil, result != nil)
 //@   modifies *headerFields, elems(qpack.HeaderField), rsp.*
+
+// ---------------- unidirectional stream dispatch (C18: unknown stream types are ignored, forbidden ones abort) ----------------
+//@ func (c *rawConn) handleControlStream
+//@   trusted reads SETTINGS from the control stream, starts the datagram receiver (goroutine) and signals receivedSettings (channel): outside the sequential subset
+//@   modifies c.settings
+//@ extern quicvarint.NewReader
+//@   ensures result != nil
+//@   modifies nothing
+//@ func (c *rawConn) handleUnidirectionalStream
+//@   props C18
+//@   requires str != nil && c.conn != nil
+//@   let t = lastresult("Read", 0)
+//@   let ok = lastresult("Read", 1) == nil
+//@   let closes = called("(*rawConn).CloseWithError") + called("(*Conn).CloseWithError")
+//@   ensures [unreadable-type-is-ignored] implies(!ok, closes == 0 && called("(*rawConn).handleControlStream") == 0 && called("(*ReceiveStream).CancelRead") == 0)
+//@   ensures [unknown-types-are-rejected-on-the-stream-only] implies(ok && t > 3, closes == 0 && called("(*ReceiveStream).CancelRead") == 1 && called("(*rawConn).handleControlStream") == 0)
+//@   ensures [push-streams-abort-the-connection] implies(ok && t == 1, closes == 1 && called("(*rawConn).handleControlStream") == 0)
+//@   ensures [qpack-streams-at-most-once] implies(ok && (t == 2 || t == 3), closes <= 1 && called("(*rawConn).handleControlStream") == 0 && called("(*ReceiveStream).CancelRead") == 0)
+//@   ensures [control-stream-handled-or-duplicate-aborts] implies(ok && t == 0, closes + called("(*rawConn).handleControlStream") == 1)
+//@   unclaimed pre:(*ReceiveStream).CancelRead@10.0 the receive stream's representation invariant belongs to the quic layer (CancelRead is verified against it there); assumed at this call
+//@   unclaimed pre:(*ReceiveStream).CancelRead@10.1 same
+//@   modifies everything
+
+// ---------------- response body writes (C18: the client sees exactly the bytes the handler wrote) ----------------
+//@ func bodyAllowedForStatus
+//@   props C18
+//@   ensures [rfc9110] iff(result, !(status >= 100 && status <= 199) && status != 204 && status != 304)
+//@   modifies nothing
+//@ func (w *responseWriter) sniffContentType
+//@   trusted sets Content-Type from the first bytes (net/http header map and http.DetectContentType: not modelled); touches only the header map
+//@   modifies nothing
+//@ func (w *responseWriter) doWrite
+//@   trusted writes the DATA frame header, the buffered small response and p to the stream (stream I/O not modelled)
+//@   ensures [count] result0 <= len(p)
+//@   ensures [buffer-kept-or-dropped] len(w.smallResponseBuf) == 0 || (samearray(w.smallResponseBuf, old(w.smallResponseBuf)) && len(w.smallResponseBuf) == old(len(w.smallResponseBuf)))
+//@   modifies w.headerWritten, w.smallResponseBuf, w.buf, w.buf[*]
+// io.Writer: "Write must not retain p". A small response is buffered by COPYING the handler's bytes: the handler may reuse
+// its buffer for the next chunk as soon as Write returns.
+//@ func (w *responseWriter) Write
+//@   props C18
+//@   requires separate(w.smallResponseBuf, p) && w.numWritten >= 0 && w.numWritten <= 4611686018427387903 && w.header != nil
+//@   let allowed = ite(old(w.headerComplete), !(old(w.status) >= 100 && old(w.status) <= 199) && old(w.status) != 204 && old(w.status) != 304, true)
+//@   ensures [body-not-allowed] implies(!allowed, result0 == 0 && result1 != nil && w.numWritten == old(w.numWritten) && called("(*responseWriter).doWrite") == 0)
+//@   ensures [counted] implies(allowed, w.numWritten == old(w.numWritten) + len(p))
+//@   ensures [beyond-content-length-is-an-error] implies(allowed && w.contentLen != 0 && w.numWritten > w.contentLen, result0 == 0 && result1 != nil && called("(*responseWriter).doWrite") == 0 && len(w.smallResponseBuf) == old(len(w.smallResponseBuf)))
+//@   ensures [does-not-retain-the-callers-buffer] len(w.smallResponseBuf) == 0 || separate(w.smallResponseBuf, p)
+//@   ensures [buffered-or-written] implies(result1 == nil && called("(*responseWriter).doWrite") == 0, result0 == len(p))
+//@   modifies w.status, w.headerComplete, w.contentLen, w.numWritten, w.headerWritten, w.smallResponseBuf, w.smallResponseBuf[*], w.buf, w.buf[*]
